@@ -428,6 +428,10 @@ pub fn set_ite_mode(on: bool) {
 pub fn set_int_mode() {
     with(|e| e.int_mode = true);
 }
+/// from here on every machine operation of a `SymI` carries its "no overflow" obligation again
+pub fn set_range_checked() {
+    with(|e| e.range_assumed = false);
+}
 pub fn set_range_assumed() {
     with(|e| e.range_assumed = true);
 }
